@@ -1235,6 +1235,21 @@ def signature_algorithm_params(signature_algorithm: int) -> tuple:
     return padding_obj, algorithm
 
 
+def signature_algorithm_matches_key(signature_algorithm: int, public_key: Any) -> bool:
+    """
+    Check whether a signature algorithm can be used with a public key.
+    """
+    if signature_algorithm == SignatureAlgorithm.ED25519:
+        return isinstance(public_key, ed25519.Ed25519PublicKey)
+    if signature_algorithm == SignatureAlgorithm.ED448:
+        return isinstance(public_key, ed448.Ed448PublicKey)
+    if signature_algorithm not in SIGNATURE_ALGORITHMS:
+        return False
+    if SIGNATURE_ALGORITHMS[signature_algorithm][0] is None:
+        return isinstance(public_key, ec.EllipticCurvePublicKey)
+    return isinstance(public_key, rsa.RSAPublicKey)
+
+
 @contextmanager
 def push_message(
     key_schedule: Union[KeySchedule, KeyScheduleProxy], buf: Buffer
@@ -1533,6 +1548,13 @@ class Context:
         if verify.algorithm not in self._signature_algorithms:
             raise AlertDecryptError(
                 "CertificateVerify has a signature algorithm we did not advertise"
+            )
+
+        if not signature_algorithm_matches_key(
+            verify.algorithm, self._peer_certificate.public_key()
+        ):
+            raise AlertIllegalParameter(
+                "CertificateVerify algorithm does not match the certificate's key"
             )
 
         try:
